@@ -1428,6 +1428,13 @@ class ModelBuilder:
                     if scenario_idx is not None and attr_data and isinstance(attr_data, tuple):
                         attr_key, attr_value = attr_data
                         obj[(attr_key, scenario_idx)] = attr_value
+                        # Nested scenarios inherit from their parent scenario unless they
+                        # set the attribute themselves
+                        explicit = obj.__dict__.setdefault("_scenario_overrides", set())
+                        explicit.add((attr_key, scenario_idx))
+                        for sub_idx in self._get_descendant_scenario_indices(obj.project, scenario_id):
+                            if (attr_key, sub_idx) not in explicit:
+                                obj[(attr_key, sub_idx)] = attr_value
                 elif key == "journalentry":
                     # Create a journal entry for this task
                     self._create_journal_entry(obj, value)  # type: ignore[arg-type]
@@ -1590,6 +1597,18 @@ class ModelBuilder:
             if scenario.id == scenario_id:
                 return i
         return None
+
+    def _get_descendant_scenario_indices(self, project: Project, scenario_id: str) -> list[int]:
+        """Get the indices of all scenarios nested (at any depth) below the given scenario."""
+        scenarios = list(project.scenarios)
+        result: list[int] = []
+        pending = [sc for sc in scenarios if sc.id == scenario_id]
+        while pending:
+            for child in pending.pop().children:
+                if child in scenarios:
+                    result.append(scenarios.index(child))
+                    pending.append(child)
+        return result
 
     def _create_journal_entry(self, task: Task, entry_data: dict[str, Any]) -> None:
         """Create a journal entry for a task.
